@@ -43,10 +43,10 @@ pub proof fn lemma_exit_mismatch(p: Comps, b: Comps, ki: int, c: Comps)
 
 //@ item relative file=src/sys/fs/path.rs fn=relative props=C16,C12,C10,C09
 //@ sig pub fn relative<T: AsRef<Path>, U: AsRef<Path>>(path: T, base: U) -> RvResult<PathBuf>
-//@ rw R1 1 ⟦if path != base {⟧ => ⟦if path.ne(base) {⟧
+//@ rw R1 * ⟦if path != base {⟧ => ⟦if path.ne(base) {⟧
 //@ rw R9 1 ⟦let mut comps: Vec<Component> = vec![];⟧ => ⟦let mut comps: Vec<Component> = Vec::new();⟧
 //@ rw R4 2 ⟦comps.extend(x.by_ref());⟧ => ⟦extend_rest(&mut comps, &mut x);⟧
-//@ rw R4 1 ⟦comps.iter().collect::<PathBuf>()⟧ => ⟦collect_path(&comps)⟧
+//@ rw R4 * ⟦comps.iter().collect::<PathBuf>()⟧ => ⟦collect_path(&comps)⟧
 //@ rw R3 1 for
 //@ ins after ⟦let mut comps: Vec<Component> = Vec::new();⟧
         let ghost p = path.comps();
